@@ -143,12 +143,13 @@ def pLayer : Sexp → Option Layer
     let esd ← (Sexp.field1? fs "esd").bind pBool
     let links ← (Sexp.field? fs "links").bind (·.mapM pEntry)
     let imports ← (Sexp.field? fs "imports").bind (·.mapM pRef)
-    let parent ← (Sexp.field1? fs "parent").bind pOpt
+    let parents ← (Sexp.field1? fs "parents").bind pAtoms
+    let prio ← (Sexp.field1? fs "prio").bind Sexp.asNat?
     let refs ← (Sexp.field? fs "refs").bind (·.mapM pLinkRef)
     let snrefs ← (Sexp.field? fs "snrefs").bind (·.mapM pSnRef)
     let locals ← (Sexp.field? fs "locals").bind (·.mapM pPool)
     pure { obj := obj, frags := frags, isEsd := esd, links := links, importRefs := imports,
-           parentKey := parent, refs := refs, snrefs := snrefs, locals := locals }
+           parentKeys := parents, prio := prio, refs := refs, snrefs := snrefs, locals := locals }
   | _ => none
 
 def resStr (r : Resolved) : String := String.join (r.map fun x => s!" ({x.1} {x.2})")
@@ -211,6 +212,23 @@ def handle (sx : Sexp) : String :=
          | .ok r => s!"(ok{resStr r})")
       | _, _ => "(bad-args)"
     | _, _, _ => "(bad-args)"
+  | .list (.atom "retargets" :: .list targets :: fs) =>
+    -- link phase of the model, then `retarget` to each of the listed layers (one reply per target; the
+    -- model's `retarget` depends on the resolved PARENT-REFs only, not on earlier calls)
+    match targets.mapM Sexp.asNat?, pDbArgs fs with
+    | some ts, some (extra, layers) =>
+      let s := buildGlobal extra layers
+      match resolveLayers layers s.2 s.1 layers with
+      | .error _ => "(links-failed)"
+      | .ok (_, res) =>
+        "(rts" ++ String.join (ts.map fun t =>
+          match findLayer layers t with
+          | none => " (no-such-layer)"
+          | some tl =>
+            match retarget layers res tl with
+            | .error e => " " ++ errStr e
+            | .ok r => s!" (ok{resStr r})") ++ ")"
+    | _, _ => "(bad-args)"
   | _ => "(bad-op)"
 
 def main : IO Unit := driverMain handle
